@@ -9,6 +9,7 @@ import (
 	"hash/fnv"
 	"math/rand/v2"
 	"os"
+	"os/exec"
 	"path/filepath"
 	"runtime"
 	"sort"
@@ -185,6 +186,9 @@ func (r *Run) Violate(sig, what string, replay any) {
 	dir := filepath.Join(VerifDir(), "replays")
 	_ = os.MkdirAll(dir, 0o755)
 	path := filepath.Join(dir, fmt.Sprintf("%s-seed%d-%s-%d.json", r.Prop, r.Seed, r.Tier, r.nreplay))
+	if tag := os.Getenv("VERIF_CHILD"); tag != "" {
+		path = filepath.Join(dir, fmt.Sprintf("%s-%s-seed%d-%s-%d.json", r.Prop, tag, r.Seed, r.Tier, r.nreplay))
+	}
 	b, _ := json.MarshalIndent(map[string]any{"property": r.Prop, "seed": r.Seed, "tier": r.Tier,
 		"signature": sig, "what": what, "case": replay}, "", " ")
 	_ = os.WriteFile(path, b, 0o644)
@@ -353,4 +357,59 @@ func (r *Run) Pick(q, t int) int {
 		return q
 	}
 	return t
+}
+
+// ChildRun re-executes this check in a child process under additional environment
+// settings (configuration that the library reads once, at package initialisation, such as
+// RUNEWIDTH_EASTASIAN) and merges what the child observed: its violations (signature
+// suffixed with the tag), its case counts, and its inconclusive state.
+func (r *Run) ChildRun(tag string, env ...string) {
+	if os.Getenv("VERIF_CHILD") != "" {
+		return
+	}
+	self, err := os.Executable()
+	if err != nil {
+		r.Inconclusive("child run " + tag + ": " + err.Error())
+		return
+	}
+	tmp, err := os.MkdirTemp(filepath.Join(VerifDir(), "replays"), "child-"+tag+"-")
+	if err != nil {
+		r.Inconclusive("child run " + tag + ": " + err.Error())
+		return
+	}
+	defer os.RemoveAll(tmp)
+	cmd := exec.Command(self, "-tier", r.Tier, "-seed", fmt.Sprint(r.Seed), r.Prop)
+	cmd.Env = append(os.Environ(), env...)
+	cmd.Env = append(cmd.Env, "VERIF_CHILD="+tag, "VERIF_EVIDENCE_DIR="+tmp)
+	out, runErr := cmd.CombinedOutput()
+	b, err := os.ReadFile(filepath.Join(tmp, r.Prop+".json"))
+	if err != nil {
+		if strings.Contains(string(out), "panic:") || strings.Contains(string(out), "fatal error:") {
+			r.CaseN(1, 1)
+			r.Violate("process-crash|"+tag, fmt.Sprintf("the check died in the child run under %v: %s", env, trunc(string(out), 1500)), map[string]any{"env": env})
+			return
+		}
+		r.Inconclusive(fmt.Sprintf("child run %s left no evidence (%v): %s", tag, runErr, trunc(string(out), 300)))
+		return
+	}
+	var ev struct {
+		Coverage struct {
+			Evaluations int64       `json:"evaluations"`
+			Distinct    int64       `json:"distinct_nontrivial"`
+			Viol        []Violation `json:"violations_detail"`
+			Incon       []string    `json:"inconclusive"`
+		} `json:"coverage"`
+	}
+	if err := json.Unmarshal(b, &ev); err != nil {
+		r.Inconclusive("child run " + tag + ": " + err.Error())
+		return
+	}
+	r.CaseN(ev.Coverage.Evaluations, 0)
+	r.Set("child_run_"+tag, map[string]any{"env": env, "evaluations": ev.Coverage.Evaluations, "distinct_nontrivial": ev.Coverage.Distinct, "violations": len(ev.Coverage.Viol)})
+	for _, v := range ev.Coverage.Viol {
+		r.Violate(v.Sig+"|"+tag, fmt.Sprintf("(under %v) %s", env, v.What), map[string]any{"env": env, "child_replay": v.Replay})
+	}
+	for _, s := range ev.Coverage.Incon {
+		r.Inconclusive("(child " + tag + ") " + s)
+	}
 }
